@@ -72,7 +72,7 @@ fn check_search(text: &[u8], k: u32, pat: &[u8]) -> Result<(), String> {
             BackwardSearchResult::Absent => { if best != 0 { return Err(format!("Absent but a suffix of length {} occurs", best)); } }
         }
         // sampled suffix array agrees
-        for s in 1..4usize {
+        for s in 1..13usize {
             let ssa = sa.sample(&text, &b, &l, &occ, s);
             for i in 0..sa.len() { if ssa.get(i) != Some(sa[i]) { return Err(format!("sampled SA (rate {}) get({}) = {:?}, full = {}", s, i, ssa.get(i), sa[i])); } }
         }
